@@ -23,7 +23,7 @@ def generate(repo, unt):
         for m in re.finditer(r"const (\w+)\s*:\s*([^=]+?)=\s*(.*?);", src, re.S):
             name, ty, body = m.group(1), " ".join(m.group(2).split()), m.group(3)
             if "[(" in ty:            # &[(&str, &[&str])]
-                ps = re.findall(r'\(\s*"([^"]*)"\s*,\s*&\[([^\]]*)\]\s*\)', body)
+                ps = re.findall(r'\(\s*"([^"]*)"\s*,\s*&\[([^\]]*)\]\s*,?\s*\)', body)
                 if not ps:
                     unt.append({"item": f"mt{code}:{name}", "why": "pair table without literal entries", "extractor": "T5r"})
                 pairs.append((code, name, [(a, re.findall(r'"([^"]*)"', b)) for a, b in ps]))
